@@ -588,7 +588,130 @@ def gen_hier(seed, flavor):
                 d['assigns'].append({'lhs': [lc['name'], lo1 + w - 1, lo1], 'rhs': [rc['name'], lo2 + w - 1, lo2]})
     ad = {'name': N.fresh(set(), 'lib') if not V else 'SDN_VERILOG_NETLIST', 'libraries': libs,
           'top': [made[-1][0], made[-1][1]['name']], 'top_instance_name': N.fresh(set(), 'inst'), 'flavor': flavor}
+    # further shapes, drawn from generators of their own so that the designs above stay what they were for a given seed
+    if V:
+        permuted_bus_connection(ad, random.Random('hier-perm:%s' % seed))
+    else:
+        same_cell_name_in_two_libraries(ad, random.Random('hier-dup:%s' % seed))
     return ad
+
+
+def same_cell_name_in_two_libraries(ad, r, p=0.2, force=None):
+    """EDIF scopes cell names per library: give a cell of one library the name (or a case variant of the name) of a cell
+    of another library.  Half of the time the cell whose name is duplicated is the top cell, so that the design's
+    (cellRef c (libraryRef l)) has to be resolved inside l."""
+    if r.random() >= p and not force:
+        return False
+    cells = [(l['name'], d) for l in ad['libraries'] for d in l['definitions']]
+    if len(set(l for l, d in cells)) < 2:
+        return False
+    top = [x for x in cells if [x[0], x[1]['name']] == ad['top']][0]
+    keep = top if (r.random() < 0.5 or force == 'top') else r.choice(cells)
+    others = [x for x in cells if x[0] != keep[0] and x[1] is not top[1]]
+    if not others:
+        return False
+    lib, d = r.choice(others)
+    newname = keep[1]['name'] if r.random() < 0.7 else keep[1]['name'].swapcase()
+    if any(e['name'].lower() == newname.lower() for e in [x for x in ad['libraries'] if x['name'] == lib][0]['definitions'] if e is not d):
+        return False
+    old = d['name']
+    d['name'] = newname
+    for _, e in cells:
+        for i in e['instances']:
+            if i['ref'] == [lib, old]:
+                i['ref'] = [lib, newname]
+    return True
+
+
+def permuted_bus_connection(ad, r, p=0.25, force=False):
+    """Verilog: feed one instance port of at least four bits from ONE cable with the two end bits where a part-select would
+    put them and the inner bits permuted ({w[5], w[3], w[4], w[2]}) or repeated ({v[3], v[1], v[1], v[0]})."""
+    if r.random() >= p and not force:
+        return False
+    idx = ad_index(ad)
+    cands = []
+    for (ln, dn), d in sorted(idx.items()):
+        for i in d['instances']:
+            for pt in idx[tuple(i['ref'])]['ports']:
+                if pt['width'] >= 4:
+                    cands.append((d, i, pt))
+    if not cands:
+        return False
+    d, i, pt = r.choice(cands)
+    w = pt['width']
+    taken = set(c['name'] for c in d['cables']) | set(p_['name'] for p_ in d['ports']) | set(x['name'] for x in d['instances'])
+    k = 0
+    while 'perm_w%d' % k in taken:
+        k += 1
+    cw = w + r.choice([0, 0, 1, 2])
+    cab = {'name': 'perm_w%d' % k, 'width': cw, 'base': r.choice([0, 0, 2, 5])}
+    d['cables'].append(cab)
+    lo = cab['base'] + r.randint(0, cw - w)
+    order = list(range(1, w - 1))
+    if r.random() < 0.5:
+        while order == list(range(1, w - 1)):
+            r.shuffle(order)                      # inner bits permuted
+    else:
+        order[r.randrange(len(order))] = r.choice([x for x in range(1, w - 1)])
+        if order == list(range(1, w - 1)):
+            order[0] = order[-1]                  # inner bit repeated
+    bits = [0] + order + [w - 1]                  # pin k of the port <- cable bit lo + bits[k]
+    for n in d['nets']:
+        n['endpoints'] = [ep for ep in n['endpoints'] if not (ep[0] == 'inst' and ep[1] == i['name'] and ep[2] == pt['name'])]
+    nets = {(n['cable'], n['bit']): n for n in d['nets']}
+    for kpin, b in enumerate(bits):
+        key = (cab['name'], lo + b)
+        if key not in nets:
+            nets[key] = {'cable': key[0], 'bit': key[1], 'endpoints': []}
+            d['nets'].append(nets[key])
+        nets[key]['endpoints'].append(['inst', i['name'], pt['name'], kpin])
+    d['nets'] = [n for n in d['nets'] if n['endpoints']]
+    d['nets'].sort(key=lambda n: (n['cable'], n['bit']))
+    return True
+
+
+def corner_ads(flavor):
+    """fixed corner designs that run on every invocation (name, abstract design)"""
+    out = []
+    if flavor == 'edif':
+        def cell(name, ports, insts=(), cables=(), nets=()):
+            return {'name': name, 'ports': [{'name': p, 'direction': dr, 'width': w, 'base': 0, 'downto': True} for p, dr, w in ports],
+                    'cables': [{'name': c, 'width': w, 'base': 0} for c, w in cables],
+                    'instances': [{'name': n, 'ref': list(rf), 'properties': {}} for n, rf in insts],
+                    'nets': [{'cable': c, 'bit': b, 'endpoints': eps} for c, b, eps in nets]}
+        for first in ('A', 'B'):
+            libs = [{'name': 'prims', 'definitions': [cell('buf', [('i', 'IN', 1), ('o', 'OUT', 1)])]},
+                    {'name': 'libA', 'definitions': [cell('buf', [('x', 'IN', 2)]),
+                                                     cell('top', [('a', 'IN', 1), ('y', 'OUT', 1)], insts=[('u1', ('prims', 'buf')), ('u2', ('libA', 'buf'))],
+                                                          cables=[('a', 1), ('y', 1)],
+                                                          nets=[('a', 0, [['port', 'a', 0], ['inst', 'u1', 'i', 0], ['inst', 'u2', 'x', 1]]),
+                                                                ('y', 0, [['inst', 'u1', 'o', 0], ['port', 'y', 0]])])]},
+                    {'name': 'libB', 'definitions': [cell('buf', [('z', 'OUT', 1)]),
+                                                     cell('top', [('p', 'IN', 3)], insts=[('v', ('libB', 'buf'))], cables=[('n', 1)],
+                                                          nets=[('n', 0, [['inst', 'v', 'z', 0]])])]}]
+            if first == 'B':
+                libs = [libs[0], libs[2], libs[1]]
+            out.append(('same-cell-name-in-two-libraries/top-in-lib' + ('A' if first == 'A' else 'A-declared-last'),
+                        {'name': 'corner', 'libraries': libs, 'top': ['libA', 'top'], 'top_instance_name': 'corner_top', 'flavor': 'edif'}))
+    if flavor == 'verilog':
+        leaf = {'name': 'L4', 'ports': [{'name': 'p', 'direction': 'IN', 'width': 4, 'base': 0, 'downto': True},
+                                        {'name': 'q', 'direction': 'IN', 'width': 4, 'base': 0, 'downto': True}], 'cables': [], 'instances': [], 'nets': []}
+        top = {'name': 'ptop', 'ports': [{'name': 'v', 'direction': 'IN', 'width': 4, 'base': 0, 'downto': True}],
+               'cables': [{'name': 'v', 'width': 4, 'base': 0}, {'name': 'w', 'width': 4, 'base': 2}],
+               'instances': [{'name': 'u', 'ref': ['hdi_primitives', 'L4'], 'properties': {}, 'params': {}, 'attrs': {}}],
+               'params': {}, 'attrs': {}, 'assigns': [],
+               'nets': [{'cable': 'v', 'bit': 0, 'endpoints': [['port', 'v', 0], ['inst', 'u', 'p', 0]]},
+                        {'cable': 'v', 'bit': 1, 'endpoints': [['port', 'v', 1], ['inst', 'u', 'p', 1], ['inst', 'u', 'p', 2]]},
+                        {'cable': 'v', 'bit': 2, 'endpoints': [['port', 'v', 2]]},
+                        {'cable': 'v', 'bit': 3, 'endpoints': [['port', 'v', 3], ['inst', 'u', 'p', 3]]},
+                        {'cable': 'w', 'bit': 2, 'endpoints': [['inst', 'u', 'q', 0]]},
+                        {'cable': 'w', 'bit': 3, 'endpoints': [['inst', 'u', 'q', 2]]},
+                        {'cable': 'w', 'bit': 4, 'endpoints': [['inst', 'u', 'q', 1]]},
+                        {'cable': 'w', 'bit': 5, 'endpoints': [['inst', 'u', 'q', 3]]}]}
+        out.append(('permuted-and-repeated-bits-of-one-cable',
+                    {'name': 'SDN_VERILOG_NETLIST', 'libraries': [{'name': 'hdi_primitives', 'definitions': [leaf]}, {'name': 'work', 'definitions': [top]}],
+                     'top': ['work', 'ptop'], 'top_instance_name': 'ptop_top', 'flavor': 'verilog'}))
+    return out
 
 
 def ad_index(ad):
